@@ -98,14 +98,16 @@ pub fn gen_c13(base_seed: u64, batch: &str, run: u64, rng: &mut Rng) -> Scenario
         threads[0].push(Op::Drop { slot: 0 });
     }
     for s in order {
-        threads[0].push(Op::Drop { slot: s });
+        // now and then the owner of a clone is a frame that a (caught) user panic unwinds
+        threads[0].push(if rng.chance(1, 4) { Op::UnwindDrop { slot: s } } else { Op::Drop { slot: s } });
     }
     if !original_first {
         // the original ends by drop, verify() or report(): each releases what it lent, once
-        threads[0].push(match rng.weighted(&[50, 30, 20]) {
+        threads[0].push(match rng.weighted(&[45, 27, 18, 10]) {
             0 => Op::Drop { slot: 0 },
             1 => Op::Verify { slot: 0 },
-            _ => Op::Report { slot: 0 },
+            2 => Op::Report { slot: 0 },
+            _ => Op::UnwindDrop { slot: 0 },
         });
     }
     Scenario {
@@ -177,7 +179,7 @@ pub fn check_c13(scn: &Scenario) -> Checked {
     for o in &log.ops {
         if let Some(op) = scn.threads.get(o.thread as usize).and_then(|t| t.get(o.index as usize)) {
             match op {
-                Op::Drop { slot } | Op::Verify { slot } | Op::Report { slot } if !matches!(o.result, OpResult::Skipped(_)) => {
+                Op::Drop { slot } | Op::Verify { slot } | Op::Report { slot } | Op::UnwindDrop { slot } if !matches!(o.result, OpResult::Skipped(_)) => {
                     teardown.push((*slot, o.start_step, o.end_step))
                 }
                 _ => {}
@@ -330,16 +332,22 @@ pub fn gen_c09(base_seed: u64, batch: &str, run: u64, rng: &mut Rng) -> Scenario
     }
     let st = Steer::new(&cfg);
     let n_threads = rng.range(1, 3);
-    let n_events = rng.range(2, 12);
+    // scale runs: dozens of clones alive at once, clones of clones many generations deep
+    let many = rng.chance(1, 25);
+    let n_events = if many { rng.range(30, 150) } else { rng.range(2, 12) };
     let mut threads: Vec<Vec<Op>> = vec![vec![]; n_threads];
     // rough model of which slots hold an instance (ops on empty slots are allowed but rare)
     let mut live: Vec<u8> = vec![0];
     let mut next_slot = 1u8;
     let mut original_gone = false;
+    // scale: more clones over the life of one mock than a 16-bit counter holds
+    if rng.chance(1, 120) {
+        threads[0].push(Op::CloneStorm { slot: 0, n: *rng.pick(&[300u32, 65_540, 66_000]) });
+    }
     for _ in 0..n_events {
         let t = rng.usize(n_threads);
         let pick_slot = |rng: &mut Rng, live: &Vec<u8>| if live.is_empty() || rng.chance(1, 15) { rng.below(5) as u8 } else { *rng.pick(live) };
-        match rng.weighted(&[22, 18, 30, 6, 4, 4, 10]) {
+        match rng.weighted(if many { &[46, 14, 26, 2, 2, 2, 8] } else { &[22, 18, 30, 6, 4, 4, 10] }) {
             0 => {
                 if (next_slot as usize) < crate::world::N_SLOTS - 1 {
                     let src = pick_slot(rng, &live);
@@ -520,6 +528,12 @@ pub fn check_c09(scn: &Scenario) -> Checked {
             (Op::Clone { .. }, _) => {
                 if !matches!(o.result, OpResult::Done) {
                     violations.push(v("C09", "clone-never-panics", "clone", format!("cloning panicked: {:?}", o.result)));
+                }
+            }
+            (Op::CloneStorm { n, .. }, _) => {
+                *stats.probes.entry("clone_storm".into()).or_default() += 1;
+                if !matches!(o.result, OpResult::Done) {
+                    violations.push(v("C09", "dropping-a-clone-is-silent", "clone-storm", format!("making and dropping {n} clones in a row: {:?}", o.result)));
                 }
             }
             (Op::Drop { .. }, Some(false)) => {
